@@ -1,14 +1,16 @@
 """C02 - determinism: image bytes independent of threads, backlog, schedule, environment.
 
 Theorems: coq/Properties_C02.v (block processor refines an in-order specification for every FIFO pool,
-every backlog, every hash table / block writer; I/O order; default time stamp is a function of
-SOURCE_DATE_EPOCH/--defaults).
+every backlog, every hash table / block writer - write calls, every field of every inode, fragment table;
+I/O order; inode type minimal; default time stamp is a function of SOURCE_DATE_EPOCH/--defaults).
 Tie (a): extracted model vs the working tree's block processor + block writer + fragment table driven by
 props/C02/h_bp.c on generated file lists x max_backlog 1..40 x workers 1..4, under real threads (ASan),
 the serial pool, real threads with seeded delays in the compressor callback, and C09's controlled
 scheduler with seeded random schedules incl. spurious wake-ups.  Exact comparison of the write-call
 sequence, returned locations, inodes, fragment table, file bytes.
 Tie (env): get_source_date_epoch / parse_fstree_defaults vs coq/C02/EnvModel.v.
+Tie (ino): the inode setters of lib/sqfs/src/inode.c vs BpModel.v at the 32 bit boundaries (h_ino.c), plus the
+order-independence oracle on the implementation (same updates of one inode in shuffled orders).
 Search oracle (b): gensquashfs / tar2sqfs, normal build vs NO_THREAD_IMPL build, same input under
 -j x -Q x TZ/LC_ALL/umask/cwd/wall clock (LD_PRELOAD) x delay injection (LD_PRELOAD); all sha256 equal.
 Thorough: more of everything + a ThreadSanitizer build."""
@@ -351,7 +353,7 @@ def tie_ino(ctx, bl, drv):
     flat = [l for g in groups for l in g]
     lines = free + flat
     if not lines:
-        return
+        return False
     om = _run_ino(drv, lines)
     oc = _run_ino(bl["h_ino"], lines)
     ctx.coverage["evaluations"] += len(lines)
@@ -368,7 +370,7 @@ def tie_ino(ctx, bl, drv):
                           "give different inodes: %r -> %r but %r -> %r (the order depends on backlog and schedule)"
                           % (g[0], outs[0], g[j], outs[j]),
                           dict(kind="ino", cases=[], orders=g, impl=outs))
-            return
+            return True
         for o in outs:
             t = o.split(" ")
             if len(t) == 7 and t[1] in "01":
@@ -376,7 +378,7 @@ def tie_ino(ctx, bl, drv):
                 if int(t[1]) != want:
                     ctx.violation("inode-type-not-minimal", "inode type after %r is %s, expected %s (size %s, sparse %s, start %s)"
                                   % (g[0], t[1], want, t[2], t[3], t[4]), dict(kind="ino", cases=[], orders=g, impl=outs))
-                    return
+                    return True
     bad = [(lines[i], om[i] if i < len(om) else None, oc[i] if i < len(oc) else None)
            for i in range(len(lines)) if i >= len(om) or i >= len(oc) or om[i] != oc[i]]
     if bad:
@@ -389,6 +391,7 @@ def tie_ino(ctx, bl, drv):
                            correspondence="coq/C02/BpModel.v i_set_file_size / i_set_block_start / i_make_extended / i_make_basic "
                                           "vs lib/sqfs/src/inode.c (props/C02/h_ino.c, exact)"),
                       no_input=True)
+    return bool(bad)
 
 
 # ----------------------------------------------------------------------------------------------
@@ -747,7 +750,7 @@ def run(ctx):
     drv = core.build_model_driver("C02", "ExtractC02.v", os.path.join(HERE, "driver.ml"))
     ctx.trusted += [
         "props/C02/h_bp.c (memory file, toy run-length compressor, recording proxy in front of the real block writer), "
-        "props/C02/h_env.c, props/C02/driver.ml (text I/O, independent XXH32 in OCaml)",
+        "props/C02/h_env.c, props/C02/h_ino.c, props/C02/driver.ml (text I/O, independent XXH32 in OCaml)",
         "coq/C02/BpConcrete.v: concrete hash table / block writer / toy compressor used only to make the model executable "
         "for the tie (the theorems quantify over all instances)",
         "props/C09/shim_sched.{h,c}: cooperative scheduler replacing pthreads in threadpool.c (component leg 'sched')",
@@ -764,8 +767,10 @@ def run(ctx):
         "theorems; C08 owns their correctness); compressors and xxh32 are functions of the block bytes",
         "A4: everything after the data path (fstree sort/post-process, inode/dir/fragment/id/xattr tables) is not in the "
         "C02 model; covered by the tool-level oracle only",
-        "inode records (type, sizes, block list) and the fragment table are compared exactly by the tie but are not part "
-        "of a C02 theorem yet (order-independence of the inode setters across the three update sites is argued in NOTES.md)",
+        "A5: the inode table is a total function from file numbers to inodes that starts fresh everywhere (begin_file "
+        "allocates inode k before any block of file k exists); nlink = 1 and no xattr index while the block processor "
+        "owns the inode; file sizes / block starts beyond 4 GiB are reached only by the setter tie (h_ino.c), not by "
+        "a real packing run",
     ]
     if ctx.replay:
         kind = json.load(open(ctx.replay)).get("kind")
@@ -788,10 +793,10 @@ def run(ctx):
                           dict(kind="component", cases=[lines[i]], model=model[i][-3000:], impl=res[name][1][i][-3000:]), no_input=True)
         return
     tie_env(ctx, bl, drv)
-    tie_ino(ctx, bl, drv)
+    ino_bad = tie_ino(ctx, bl, drv)
     bad = tool_sweep(ctx, bl, short=bool(impl_disagree))
     ctx.log("tool sweep: %s" % json.dumps(ctx.coverage.get("tool_sweep", {}))[:300])
-    broken = bool(tie_bad) or bool(ctx.proof_broken)
+    broken = bool(tie_bad) or bool(ctx.proof_broken) or bool(ino_bad)
     if broken and not bad and not impl_disagree and ctx.tier == "quick":
         # tie broke / proof broke => search harder before reporting "no failing input found"
         ctx.log("tie or proof broken: extended search")
